@@ -243,11 +243,17 @@ class Cell:
 class LatticeTruth:
     '''What the generator knows about a lattice cell by construction.'''
 
-    def __init__(self, kind, origin, vectors, hexagon=None):
+    def __init__(self, kind, origin, vectors, hexagon=None, axis=None):
         self.kind = kind                  # 1 or 2
         self.origin = np.asarray(origin, dtype=float)
         self.vectors = [np.asarray(v, dtype=float) for v in vectors]
-        self.hexagon = hexagon            # list of 6 vertices (in-plane)
+        self.hexagon = hexagon            # 6 vertices of the cross-section
+        #                                   perpendicular to the axis
+        # direction of the axis of a hexagonal prism; needed when the end
+        # planes are oblique: a1 and a2 are then parallel to the end planes
+        # (neighbouring elements share whole faces), not perpendicular to
+        # the axis.  None = cross(a1, a2).
+        self.axis = None if axis is None else np.asarray(axis, dtype=float)
 
 
 class Material:
@@ -652,16 +658,16 @@ def lattice_index(info, pts):
         rec = np.linalg.solve(gram, mat)           # ndim x 3, rec_k . a_j = d
         coords = rel @ rec.T
         return np.floor(coords + 0.5).astype(int)
-    # hexagonal: two in-plane vectors (+ optional axial one)
+    # hexagonal: two vectors across sides (+ optional axial one)
     a1, a2 = vecs[0], vecs[1]
-    mat = np.array([a1, a2])
-    gram = mat @ mat.T
-    rec = np.linalg.solve(gram, mat)
-    plane = rel @ rec.T                            # fractional coordinates
-    base = np.floor(plane + 0.5).astype(int)
-    hexv = np.array(info.hexagon)                  # 6 x 3, about the origin
-    nrm = np.cross(a1, a2)
+    nrm = getattr(info, 'axis', None)
+    if nrm is None:
+        nrm = np.cross(a1, a2)
     nrm = nrm / np.linalg.norm(nrm)
+    third = vecs[2] if ndim == 3 else nrm
+    coords = np.linalg.solve(np.array([a1, a2, third]).T, rel.T).T
+    base = np.floor(coords[:, :2] + 0.5).astype(int)
+    hexv = np.array(info.hexagon)                  # 6 x 3, about the origin
     result = np.zeros((len(pts), ndim), dtype=int)
     found = np.zeros(len(pts), dtype=bool)
     for di in (0, -1, 1):
@@ -674,9 +680,7 @@ def lattice_index(info, pts):
             result[new, 1] = cand[new, 1]
             found |= new
     if ndim == 3:
-        a3 = vecs[2]
-        hgt = (rel @ nrm) / (a3 @ nrm)
-        result[:, 2] = np.floor(hgt + 0.5).astype(int)
+        result[:, 2] = np.floor(coords[:, 2] + 0.5).astype(int)
     # points on hexagon edges may be unassigned: give an impossible index
     result[~found, 0] = 10**6
     return result
